@@ -142,17 +142,25 @@ func variants(r *rand.Rand, op *gen.Op, mono *ast.Schema) []gen.Op {
 	// a variable used inside a custom-scalar literal may be declared with any type: same text, other declared type
 	for _, m := range inScalarLitRe.FindAllStringSubmatch(q, -1) {
 		name := m[1] + m[2]
-		for from, to := range map[string]string{"Int": "String", "String": "Int"} {
-			decl := "$" + name + ": " + from
+		// ... another named type, or the same named type under other list / non-null wrappers
+		for _, alt := range []struct {
+			from, to string
+			val      any
+		}{
+			{"Int", "String", "zed"}, {"String", "Int", float64(7)},
+			{"Int", "[Int]", []any{float64(7), float64(8)}}, {"Int", "Int!", float64(9)}, {"String", "[String!]!", []any{"zed"}}, {"String", "[[String]]", []any{[]any{"zed", nil}}},
+		} {
+			decl := "$" + name + ": " + alt.from
 			if !regexp.MustCompile(regexp.QuoteMeta(decl) + `[,)= ]`).MatchString(q) {
 				continue
 			}
-			val := any("zed")
-			if to == "Int" {
-				val = float64(7)
+			nm, val, to := name, alt.val, alt.to
+			nq := strings.Replace(q, decl, "$"+nm+": "+to, 1)
+			if strings.HasSuffix(to, "!") || strings.HasPrefix(to, "[") {
+				// a default written for the old type does not fit the new one
+				nq = regexp.MustCompile(regexp.QuoteMeta("$"+nm+": "+to)+` = [^,)]+`).ReplaceAllString(nq, "$$"+nm+": "+to)
 			}
-			nm := name
-			add(strings.Replace(q, decl, "$"+nm+": "+to, 1), func(o *gen.Op) {
+			add(nq, func(o *gen.Op) {
 				nv := map[string]any{}
 				for k, v := range op.Variables {
 					nv[k] = v
